@@ -663,6 +663,24 @@ def run(repo, rep):
     base = repo.cls('dimsemessages', 'DIMSEMessage')
     c2m = dec.find_method('_command_set_to_message')
     if c2m is None:
+        # the function may have been moved out of the class or renamed: it is whatever process() calls to get self.msg
+        for hf in repo.helper_closure(proc):
+            for n in ast.walk(hf.node):
+                if isinstance(n, ast.Assign) and any(norm(t) == 'self.msg' for t in n.targets) and isinstance(n.value, ast.Call):
+                    fn_ = n.value.func
+                    if isinstance(fn_, ast.Attribute) and isinstance(fn_.value, ast.Name) and fn_.value.id in ('self', 'cls'):
+                        c2m = dec.find_method(fn_.attr)
+                    elif isinstance(fn_, ast.Name) and fn_.id in fsm.functions:
+                        c2m = fsm.functions[fn_.id]
+                    else:
+                        try:
+                            r_ = repo.resolve_expr(fn_, fsm, dec)
+                            from ..srcmodel import FuncRef as _FR
+                            if isinstance(r_, _FR):
+                                c2m = repo.func(r_.module, r_.qualname)
+                        except Exception:
+                            pass
+    if c2m is None:
         raise AnalysisError('DIMSEDecoder._command_set_to_message not found')
     rep.analysed(c2m)
     msg_classes = [c for c in dm.classes.values() if c.is_subclass_of(base) and 'command_field' in c.attrs and c.key != base.key]
